@@ -161,11 +161,21 @@ func (s *session) takeImages(kind string, permille int, file string) {
 		scanned = true
 		pats = patternsFor(len(refs), r.mode)
 	}
+	// in enumeration every pattern is also tried with a short tail where a file grew
+	npats := len(pats)
+	if enum {
+		for i := range files {
+			if len(files[i].vol) > files[i].durLen && len(files[i].dirty) > 0 {
+				npats = 2 * len(pats)
+				break
+			}
+		}
+	}
 	for n := 0; ; n++ {
 		var take bool
 		switch {
 		case enum:
-			take = r.ch.forceChance(n < len(pats))
+			take = r.ch.forceChance(n < npats)
 		case r.ch.replay:
 			take = r.ch.chance(permille)
 		case n >= r.b.Cfg.MaxPer || (n > 0 && len(refs) == 0):
@@ -186,7 +196,7 @@ func (s *session) takeImages(kind string, permille int, file string) {
 			if enum {
 				r.ch.force(8, 2)
 				for i := range lost {
-					lost[i] = r.ch.force(2, b2i(pats[n][i])) == 1
+					lost[i] = r.ch.force(2, b2i(pats[n%len(pats)][i])) == 1
 				}
 			} else {
 				switch r.ch.draw(8) {
@@ -245,14 +255,37 @@ func (s *session) takeImages(kind string, permille int, file string) {
 				}
 			}
 		}
+		canShort := false
 		for fi, set := range lostBy {
 			if tornInsideRecord(&files[fi], set) {
 				img.torn = true
 			}
+			if shortTailCut(&files[fi], set) >= 0 {
+				canShort = true
+			}
+		}
+		short := false
+		if canShort {
+			// the lost tail of a file that grew past its durable length: zero-filled
+			// (size updated) or missing (size not updated), by tape choice
+			if enum {
+				short = r.ch.force(2, b2i(n >= len(pats))) == 1
+			} else {
+				short = r.ch.draw(2) == 1
+			}
+		} else if enum && n >= len(pats) {
+			continue // nothing to cut short in this pattern
+		}
+		if short {
+			h = core.Mix(h, 0x5407)
+			r.fault("file-tail-missing", 1)
 		}
 		img.hash = h
 		img.lostDesc = fmt.Sprintf("%d of %d unsynced sectors lost [%s]", img.nLost, nr, strings.Join(desc, " "))
-		if err := materialise(img.root, files, refs, lost); err != nil {
+		if short {
+			img.lostDesc += " (lost tail behind the durable length missing from the file, not zero-filled)"
+		}
+		if err := materialise(img.root, files, refs, lost, short); err != nil {
 			r.fail("C16/harness/scratch", "cannot write crash image: %v", err)
 			return
 		}
